@@ -96,19 +96,32 @@ FACETS_STATE = ['shape', 'types', 'colors', 'position', 'orientation', 'held-typ
 FACETS_OBS = ['shape', 'types', 'colors', 'position-y', 'position-x', 'held-type', 'held-color']
 
 
-def conjuncts_of_contains(f: Func) -> Tuple[List[ast.AST], str]:
+def _flat_and(v: ast.AST) -> List[ast.AST]:
+    if isinstance(v, ast.BoolOp) and isinstance(v.op, ast.And):
+        return [x for y in v.values for x in _flat_and(y)]
+    if isinstance(v, ast.Call) and src(v.func) == 'all' and len(v.args) == 1 and \
+            isinstance(v.args[0], (ast.List, ast.Tuple)):
+        return [x for y in v.args[0].elts for x in _flat_and(y)]
+    return [v]
+
+
+def conjuncts_of_contains(f: Func, index: Optional[RepoIndex] = None) -> Tuple[List[ast.AST], str]:
     w = walk_function(f.node)
     p = f.node.args.args[1].arg
     rets = [e for e in w.events if e.kind == 'return' and e.value is not None]
     if len(rets) != 1:
         raise AnalysisError(f'{f.short}: expected one return')
-    v = w.expand(rets[0].value, {p: 'X'})
-    if isinstance(v, ast.BoolOp) and isinstance(v.op, ast.And):
-        return list(v.values), p
-    if isinstance(v, ast.Call) and src(v.func) == 'all' and len(v.args) == 1 and \
-            isinstance(v.args[0], (ast.List, ast.Tuple)):
-        return list(v.args[0].elts), p
-    raise AnalysisError(f'{f.short}: the predicate is not a conjunction (`{src(v)[:80]}`)')
+    v = w.expand(rets[0].value)
+    if index is not None:
+        from ..inline import inline_pure_exprs
+        v = inline_pure_exprs(index, f.module, f.cls, v)
+    import copy
+    from ..inline import _Rename
+    v = _Rename({p: 'X'}).visit(copy.deepcopy(v))
+    out = _flat_and(v)
+    if len(out) < 2:
+        raise AnalysisError(f'{f.short}: the predicate is not a conjunction (`{src(v)[:80]}`)')
+    return out, p
 
 
 def classify_facet(c: ast.AST, kind: str) -> Optional[str]:
@@ -159,7 +172,7 @@ def membership(index: RepoIndex, rep, rule: str) -> None:
     for cname, kind, facets in (('StateSpace', 'state', FACETS_STATE),
                                 ('ObservationSpace', 'obs', FACETS_OBS)):
         f = index.func(SPACES, f'{cname}.contains')
-        conj, p = conjuncts_of_contains(f)
+        conj, p = conjuncts_of_contains(f, index)
         found: Dict[str, ast.AST] = {}
         for c in conj:
             fac = classify_facet(c, kind)
@@ -287,6 +300,9 @@ def _float_kinded(e: ast.AST, f: Func, w, depth: int = 4) -> Tuple[bool, str]:
             return True, ''
         if fs in ('overlap', 'reduce', 'reduce_sum'):
             return True, ''
+        h = f.module.functions.get(fs)
+        if h is not None and depth > 0 and not h.node.decorator_list:
+            return _helper_kinded(h, _float_kinded, depth - 1)
         return False, f'call `{fs}` is not known to return a float'
     if isinstance(e, ast.Subscript):
         return True, ''   # element of a float array (dijkstra distances)
@@ -316,12 +332,30 @@ def _bool_kinded(e: ast.AST, f: Func, w, depth: int = 4) -> Tuple[bool, str]:
                   'reduce_any', 'reduce_all') or fs.endswith('.contains') or \
                 fs.endswith('.issubset'):
             return True, ''
+        h = f.module.functions.get(fs)
+        if h is not None and depth > 0 and not h.node.decorator_list:
+            return _helper_kinded(h, _bool_kinded, depth - 1)
         return False, f'call `{fs}` is not known to return a bool'
     if isinstance(e, ast.Name) and depth > 0:
         d = w.single_def(e.id)
         if d is not None and d[0] == 'value':
             return _bool_kinded(d[1], f, w, depth - 1)
     return False, f'`{src(e)[:40]}` is not bool-kinded'
+
+
+def _helper_kinded(h: Func, kinded, depth: int) -> Tuple[bool, str]:
+    """every return of a module-local helper has the kind"""
+    w = walk_function(h.node)
+    rets = [e for e in w.events if e.kind == 'return']
+    if not rets or w.fall is not None:
+        return False, f'helper `{h.name}` can return None'
+    for r in rets:
+        if r.value is None:
+            return False, f'helper `{h.name}` returns None'
+        ok, why = kinded(r.value, h, w, depth)
+        if not ok:
+            return False, f'helper `{h.name}`: {why}'
+    return True, ''
 
 
 def result_kinds(index: RepoIndex, rep, rule: str) -> None:
